@@ -22,6 +22,7 @@ import (
 	"runtime/debug"
 	"time"
 
+	"golang.org/x/sys/unix"
 	"golang.zx2c4.com/wireguard/conn"
 )
 
@@ -67,6 +68,15 @@ func openWire(pass string) (*wireEnv, error) {
 			continue
 		}
 		_ = c.SetReadBuffer(16 << 20)
+		if fam == "v6" {
+			// the fault-injecting pass wire_eio_partial sends lone datagrams while
+			// checksums are switched off on the sending socket; accept them
+			if rc, err := c.SyscallConn(); err == nil {
+				rc.Control(func(fd uintptr) {
+					unix.SetsockoptInt(int(fd), unix.IPPROTO_UDP, unix.UDP_NO_CHECK6_RX, 1)
+				})
+			}
+		}
 		e.rx[fam] = c
 		go func(c *net.UDPConn, fam string) {
 			buf := make([]byte, 1<<16)
